@@ -58,6 +58,7 @@ where
     ) -> Result<(), GrevmError<DB::Error>> {
         let start = committed.index();
         let result_count = self.results.lock().len();
+        vemit!(SCHED, "S_Begin", "start" => start, "outcomes" => result_count);
         // State is already committed through `start`; outcomes must name the identical prefix
         // before replay can safely append the suffix.
         if start > self.block_size || result_count != start {
@@ -111,9 +112,16 @@ where
     ) -> SequentialReplayOutput<DB::Error> {
         let mut outcomes = Vec::with_capacity(self.block_size - start);
         for txid in start..self.block_size {
+            vpoint!(SCHED, "S_Tx");
             let outcome = match transact(txid, &self.txs[txid]) {
-                Ok(result) => TxExecutionOutcome::Executed(result),
+                Ok(result) => {
+                    vemit!(SCHED, "S_Tx", "tx" => txid, "kind" => "executed",
+                        "result" => Some(crate::verif::fmt::result_digest(&result)));
+                    TxExecutionOutcome::Executed(result)
+                }
                 Err(EVMError::Transaction(error)) => {
+                    vemit!(SCHED, "S_Tx", "tx" => txid, "kind" => "skipped",
+                        "result" => Some(format!("{error:?}")));
                     tracing::error!(
                         target: "grevm::scheduler",
                         block_number = %self.env.number,
@@ -124,6 +132,8 @@ where
                     TxExecutionOutcome::Skipped(error)
                 }
                 Err(error) => {
+                    vemit!(SCHED, "S_Tx", "tx" => txid, "kind" => "error",
+                        "result" => Option::<String>::None);
                     return SequentialReplayOutput {
                         outcomes,
                         error: Some(GrevmError { txid, error }),
